@@ -38,6 +38,21 @@ def appendD (s : WriterD) (file : Bytes) (es : List (Nat × Bytes)) (fault : IoF
     | .none => appendCoreD s.1 false (clearStale file s.1.writeOffset) es .none
   else appendCoreD s.1 false file es fault
 
+/-- `ForceSeal` with the flag (its write goes through the same `sync()`): an already sealed writer does no I/O -/
+def forceSealD (s : WriterD) (file : Bytes) (fault : IoFault) : Except SegErr Nat × WriterD × Bytes :=
+  let core (flag : Bool) (file : Bytes) (fault : IoFault) : Except SegErr Nat × WriterD × Bytes :=
+    match s.1.forceSeal file fault with
+    | (.ok is, w', file') => (.ok is, (w', false), file')
+    | (.error e, w', file') => (.error e, (w', if fault = .none then flag else true), file')
+  if s.1.indexStart > 0 then (.ok s.1.indexStart, s, file)
+  else if s.1.appendIndex.toOption.isNone then core s.2 file fault        -- fails before any I/O (empty writer)
+  else if s.2 && staleBehind file s.1.writeOffset then
+    match fault with
+    | .sync => (.error .io, (s.1, true), clearStale file s.1.writeOffset)
+    | .write n => (.error .io, (s.1, true), clearStalePartial file s.1.writeOffset n)
+    | .none => core false (clearStale file s.1.writeOffset) .none
+  else core false file fault
+
 /-- recovery in a fresh process: `recoverTail`, flag reset -/
 def recoverD (info : SegInfo) (file : Bytes) : Except SegErr (WriterD × Bytes) :=
   (recoverTail info file).map fun p => ((p.1, false), p.2)
